@@ -13,6 +13,7 @@ from ..corpus import (
     Unsupported,
     arg_or_kw,
     dotted,
+    enclosing_function,
     kwarg,
     parent,
     short,
@@ -69,14 +70,45 @@ SPLITLINES_BOUNDARIES = frozenset(["\n", "\r", "\r\n", "\v", "\f", "\x1c", "\x1d
 # small AST helpers
 
 
-def _cstr(node) -> str | None:
-    """str value of a str/bytes constant."""
+_NOCONST = object()
+
+
+def _const(node):
+    """Value of a literal, or of a name that denotes a module-level constant (hoisted literal) and is not
+    rebound in the enclosing functions; ``_NOCONST`` otherwise."""
     if isinstance(node, ast.Constant):
-        if isinstance(node.value, str):
-            return node.value
-        if isinstance(node.value, bytes):
-            return node.value.decode("latin1")
+        return node.value
+    if isinstance(node, ast.UnaryOp) and isinstance(node.op, ast.USub):
+        v = _const(node.operand)
+        return -v if isinstance(v, (int, float)) and not isinstance(v, bool) else _NOCONST
+    if isinstance(node, ast.Name) and isinstance(getattr(node, "ctx", None), ast.Load):
+        mod = getattr(node, "_mod", None)
+        if mod is not None and node.id in mod.const_nodes:
+            f = enclosing_function(node)
+            while f is not None:
+                if node.id in f.params or any(isinstance(n, ast.Name) and n.id == node.id and isinstance(n.ctx, ast.Store) for n in f.local_nodes()):
+                    return _NOCONST
+                f = f.parent_func
+            try:
+                return mod.eval_const(mod.const_nodes[node.id])
+            except Unsupported:
+                return _NOCONST
+    return _NOCONST
+
+
+def _cstr(node) -> str | None:
+    """str value of a str/bytes constant (literal or hoisted module constant)."""
+    v = _const(node) if node is not None else _NOCONST
+    if isinstance(v, str):
+        return v
+    if isinstance(v, bytes):
+        return v.decode("latin1")
     return None
+
+
+def _cbytes(node) -> bytes | None:
+    v = _const(node) if node is not None else _NOCONST
+    return v if isinstance(v, bytes) else None
 
 
 def _eq_const(t):
@@ -106,6 +138,13 @@ def _atom(t, pol):
             return [("in", l, r, pol, t)]
         if isinstance(op, ast.NotIn):
             return [("in", l, r, not pol, t)]
+        if isinstance(op, (ast.Eq, ast.NotEq)):
+            for a, b in ((l, r), (r, l)):  # x[-1:] == "$"  /  x[-1] == "$"  are suffix tests
+                c = _cstr(b)
+                if isinstance(a, ast.Subscript) and c:
+                    sl = a.slice
+                    if (isinstance(sl, ast.Slice) and sl.upper is None and sl.step is None and sl.lower is not None and _const(sl.lower) == -len(c)) or (len(c) == 1 and _const(sl) == -1):
+                        return [("endswith", a.value, b, pol == isinstance(op, ast.Eq), t)]
         if isinstance(op, ast.Eq):
             return [("eq", l, r, pol, t)]
         if isinstance(op, ast.NotEq):
@@ -167,15 +206,25 @@ class Anchors:
                     self.headers[hdrs[0]] = tgt
         # roles by structure: the v2 loader matches a regex and unpacks m.groups(); the v1 loader splits into three fields
         v1, v2 = [], []
+
+        def has_groups(f):
+            return any(isinstance(n, ast.Call) and isinstance(n.func, ast.Attribute) and n.func.attr == "groups" for n in f.local_nodes())
+
         for f in self.headers.values():
-            if any(isinstance(n, ast.Call) and isinstance(n.func, ast.Attribute) and n.func.attr == "groups" for n in f.local_nodes()):
+            g = has_groups(f) or any(has_groups(t) for _, t in _callees(corpus, f))
+            try:
+                _v1_unpack(f)
+                u = True
+            except Unsupported:
+                u = False
+            if g and not u:
                 v2.append(f)
-            else:
-                try:
-                    _v1_unpack(f)
-                    v1.append(f)
-                except Unsupported:
-                    pass
+            elif u and not g:
+                v1.append(f)
+        if (len(v1) != 1 or len(v2) != 1) and len(self.headers) == 2:
+            # the entry parsing moved elsewhere: fall back on the protocol constants themselves
+            v1 = [f for h, f in self.headers.items() if h.rstrip().endswith("version 1")]
+            v2 = [f for h, f in self.headers.items() if h.rstrip().endswith("version 2")]
         if len(v1) != 1 or len(v2) != 1:
             raise AnchorMissing("inventory.load no longer dispatches on the two header constants to a v1 and a v2 loader")
         self.v1, self.v2 = v1[0], v2[0]
@@ -191,6 +240,7 @@ class Anchors:
         if self.reader is None:
             self.reader = inv.cls("InventoryFileReader")
         # Sphinx side
+        self.corpus = corpus
         self.sib = sib = corpus.sibling(SIB)
 
         def pick(*names):
@@ -233,48 +283,90 @@ def _eval_flags(e, mod) -> int:
     raise Unsupported(f"regex flags not understood: {short(e, 40)}")
 
 
+def _regex_sites(fi: FunctionInfo) -> list:
+    mod = fi.module
+    sites = []
+    for c in fi.local_nodes():
+        if not isinstance(c, ast.Call):
+            continue
+        d = dotted(c.func)
+        r = mod.resolve(d) if d else None
+        if r in RE_FUNCS:
+            sites.append((RE_FUNCS[r], arg_or_kw(c, 0, "pattern"), arg_or_kw(c, 2, "flags"), arg_or_kw(c, 1, "string"), c))
+        elif isinstance(c.func, ast.Attribute) and c.func.attr in ("match", "search", "fullmatch") and isinstance(c.func.value, ast.Name) and c.func.value.id in mod.const_nodes:
+            comp = mod.const_nodes[c.func.value.id]
+            if isinstance(comp, ast.Call) and mod.resolve(dotted(comp.func) or "") == "re.compile":
+                sites.append((c.func.attr, arg_or_kw(comp, 0, "pattern"), arg_or_kw(comp, 1, "flags"), c.args[0] if c.args else None, c))
+    return sites
+
+
+def _bound_var(fi: FunctionInfo, call: ast.Call) -> str:
+    p = parent(call)
+    if isinstance(p, ast.NamedExpr) and isinstance(p.target, ast.Name):
+        return p.target.id
+    if isinstance(p, ast.Assign) and len(p.targets) == 1 and isinstance(p.targets[0], ast.Name):
+        return p.targets[0].id
+    raise Unsupported(f"{fi.fq}: the result of `{short(call, 40)}` is not assigned to a local")
+
+
 class EntryLoop:
-    def __init__(self, fi: FunctionInfo):
+    """The ``for line in ...`` loop of a v2 loader: regex site (in the loader or in a private helper called
+    from the loop that returns ``m.groups()`` / None), the variable holding the match result, group roles."""
+
+    def __init__(self, fi: FunctionInfo, corpus: Corpus | None = None):
         self.fi = fi
-        mod = fi.module
-        sites = []
-        for c in fi.local_nodes():
-            if not isinstance(c, ast.Call):
-                continue
-            d = dotted(c.func)
-            r = mod.resolve(d) if d else None
-            if r in RE_FUNCS:
-                sites.append((RE_FUNCS[r], arg_or_kw(c, 0, "pattern"), arg_or_kw(c, 2, "flags"), arg_or_kw(c, 1, "string"), c))
-            elif isinstance(c.func, ast.Attribute) and c.func.attr in ("match", "search", "fullmatch") and isinstance(c.func.value, ast.Name) and c.func.value.id in mod.const_nodes:
-                comp = mod.const_nodes[c.func.value.id]
-                if isinstance(comp, ast.Call) and mod.resolve(dotted(comp.func) or "") == "re.compile":
-                    sites.append((c.func.attr, arg_or_kw(comp, 0, "pattern"), arg_or_kw(comp, 1, "flags"), c.args[0] if c.args else None, c))
+        sites = [(fi, None, s_) for s_ in _regex_sites(fi)]
+        if not sites and corpus is not None:
+            for call, t in _callees(corpus, fi):
+                if _enclosing_for(call) is not None:
+                    sites += [(t, call, s_) for s_ in _regex_sites(t)]
         if len(sites) != 1:
             raise Unsupported(f"{fi.fq}: expected exactly one regex match site, found {len(sites)}")
-        self.kind, pat, fl, self.subject, self.call = sites[0]
+        self.regex_fi, via, (self.kind, pat, fl, self.subject, self.regex_call) = sites[0]
+        rmod = self.regex_fi.module
         if pat is None or self.subject is None:
             raise Unsupported(f"{fi.fq}: regex call shape not understood")
-        self.pattern = mod.eval_const(pat)
+        self.pattern = rmod.eval_const(pat)
         if not isinstance(self.pattern, str):
             raise Unsupported(f"{fi.fq}: regex pattern is not a str constant")
-        self.flags = _eval_flags(fl, mod)
+        self.flags = _eval_flags(fl, rmod)
         self.tree = _rp.parse(self.pattern, self.flags)
+        self.call = via if via is not None else self.regex_call  # the call inside the loader's loop
         self.loop = _enclosing_for(self.call)
         if self.loop is None or not isinstance(self.loop.target, ast.Name):
             raise Unsupported(f"{fi.fq}: regex match is not inside a `for line in ...` loop")
-        base, self.subject_chain = _method_chain(self.subject)
+        base, chain = _method_chain(self.subject)
+        if via is not None:
+            t = self.regex_fi
+            if not (isinstance(base, ast.Name) and base.id in t.params):
+                raise Unsupported(f"{t.fq}: regex subject does not derive from a parameter")
+            arg = _param_arg(t, via, base.id)
+            base, outer = _method_chain(arg) if arg is not None else (None, [])
+            chain = outer + chain
+            inner_m = _bound_var(t, self.regex_call)
+            rets = [r for r in t.local_nodes() if isinstance(r, ast.Return)]
+
+            def is_groups(e):
+                return isinstance(e, ast.Call) and isinstance(e.func, ast.Attribute) and e.func.attr == "groups" and _is_name(e.func.value, inner_m) and not e.args
+
+            ok = bool(rets) and any(is_groups(r.value) for r in rets)
+            for r in rets:
+                v = r.value
+                if not (v is None or _is_none(v) or is_groups(v) or (isinstance(v, ast.IfExp) and {True} == {is_groups(b) or _is_none(b) for b in (v.body, v.orelse)})):
+                    ok = False
+            if not ok:
+                raise Unsupported(f"{t.fq}: helper does not return m.groups() / None")
+        self.subject_chain = chain
         if not _is_name(base, self.loop.target.id):
             raise Unsupported(f"{fi.fq}: regex subject does not derive from the loop variable")
-        p = parent(self.call)
-        if isinstance(p, ast.NamedExpr) and isinstance(p.target, ast.Name):
-            self.mvar = p.target.id
-        elif isinstance(p, ast.Assign) and len(p.targets) == 1 and isinstance(p.targets[0], ast.Name):
-            self.mvar = p.targets[0].id
-        else:
-            raise Unsupported(f"{fi.fq}: match object is not assigned to a local")
+        self.mvar = _bound_var(fi, self.call)
         self.unpack = None
         for st in fi.local_nodes():
-            if isinstance(st, ast.Assign) and isinstance(st.value, ast.Call) and isinstance(st.value.func, ast.Attribute) and st.value.func.attr == "groups" and _is_name(st.value.func.value, self.mvar):
+            if not isinstance(st, ast.Assign):
+                continue
+            v = st.value
+            direct = isinstance(v, ast.Call) and isinstance(v.func, ast.Attribute) and v.func.attr == "groups" and _is_name(v.func.value, self.mvar)
+            if (via is None and direct) or (via is not None and _is_name(v, self.mvar)):
                 self.unpack = st
         t = self.unpack.targets[0] if self.unpack is not None else None
         if not (isinstance(t, ast.Tuple) and all(isinstance(e, ast.Name) for e in t.elts) and len(t.elts) == len(ROLES) == self.tree.state.groups - 1):
@@ -316,11 +408,11 @@ class EntryLoop:
 
 
 def _myst_loop(corpus) -> EntryLoop:
-    return corpus.cache("c18-v2loop", lambda: EntryLoop(_anchors(corpus).v2))
+    return corpus.cache("c18-v2loop", lambda: EntryLoop(_anchors(corpus).v2, corpus))
 
 
 def _sphinx_loop(corpus) -> EntryLoop:
-    return corpus.cache("c18-s-v2loop", lambda: EntryLoop(_anchors(corpus).s_v2))
+    return corpus.cache("c18-s-v2loop", lambda: EntryLoop(_anchors(corpus).s_v2, corpus))
 
 
 # ---------------------------------------------------------------------------
@@ -404,7 +496,7 @@ def _entry_store(st, rooted: bool = True):
         if len(keys) == 4 and _cstr(keys[0]) == "objects":
             return keys[1:], item, mode
         return None
-    return (keys[-3:], item, mode) if len(keys) >= 3 else None
+    return (keys[-3:], item, mode) if len(keys) >= 1 else None
 
 
 def _objects_store(st) -> list | None:
@@ -495,9 +587,11 @@ def _is_none(e) -> bool:
     return isinstance(e, ast.Constant) and e.value is None
 
 
-def _text_outcomes(fi: FunctionInfo, value: ast.expr, store: ast.stmt, scope: set, unpack: ast.stmt | None, samples: list[str]) -> list:
+def _text_outcomes(fi: FunctionInfo, value: ast.expr, store: ast.stmt, scope: set, unpack: ast.stmt | None, samples: list[str], corpus: Corpus | None = None) -> list:
     """What is stored as "text" for each abstract display name in ``samples`` (None or the name itself)."""
     cfg = get_cfg(fi)
+    inl = (lambda e: _inline(corpus, fi, e)) if corpus is not None else (lambda e: e)
+    value = inl(value)
     if isinstance(value, ast.IfExp):
         branch = [b.id for b in (value.body, value.orelse) if isinstance(b, ast.Name)]
         if len(branch) != 1:
@@ -528,10 +622,10 @@ def _text_outcomes(fi: FunctionInfo, value: ast.expr, store: ast.stmt, scope: se
             p = parent(st)
             if isinstance(st, ast.Assign) and _is_none(st.value) and isinstance(p, ast.If) and st in p.body and not p.orelse and cfg.dominates(p, store) and p in scope:
                 tests.append(p.test)
-            elif isinstance(st, ast.Assign) and isinstance(st.value, ast.IfExp) and _is_none(st.value.body) and _is_name(st.value.orelse, var) and cfg.dominates(st, store):
-                tests.append(st.value.test)  # text = None if <test> else text
-            elif isinstance(st, ast.Assign) and isinstance(st.value, ast.IfExp) and _is_none(st.value.orelse) and _is_name(st.value.body, var) and cfg.dominates(st, store):
-                tests.append(ast.UnaryOp(op=ast.Not(), operand=st.value.test))
+            elif isinstance(st, ast.Assign) and isinstance(inl(st.value), ast.IfExp) and _is_none(inl(st.value).body) and _is_name(inl(st.value).orelse, var) and cfg.dominates(st, store):
+                tests.append(inl(st.value).test)  # text = None if <test> else text
+            elif isinstance(st, ast.Assign) and isinstance(inl(st.value), ast.IfExp) and _is_none(inl(st.value).orelse) and _is_name(inl(st.value).body, var) and cfg.dominates(st, store):
+                tests.append(ast.UnaryOp(op=ast.Not(), operand=inl(st.value).test))
             else:
                 raise Unsupported(f"assignment to the display name not understood: {short(st, 60)}")
         samples.extend(_Sym(v) for v in _other_names(tests, var))
@@ -547,7 +641,21 @@ def _dict_value(d: ast.expr, key: str):
     return None
 
 
-def _check_type_splits(rep: Report, rid: str, fi: FunctionInfo, typevar: str, scope) -> int:
+def _caught_and_skipped(fi: FunctionInfo, st) -> bool:
+    """``st`` lies in a try body whose ValueError (or broader) handler leaves the iteration with ``continue``."""
+    node = st
+    p = parent(st)
+    while p is not None and not isinstance(p, (ast.FunctionDef, ast.AsyncFunctionDef)):
+        if isinstance(p, ast.Try) and node in p.body:
+            for h in p.handlers:
+                names = [] if h.type is None else [unparse(x) for x in (h.type.elts if isinstance(h.type, ast.Tuple) else [h.type])]
+                if (h.type is None or any(n_ in ("ValueError", "Exception", "BaseException") for n_ in names)) and h.body and isinstance(h.body[-1], ast.Continue):
+                    return True
+        node, p = p, parent(p)
+    return False
+
+
+def _check_type_splits(rep: Report, rid: str, fi: FunctionInfo, typevar: str, scope, alias=lambda e: False) -> int:
     cfg = get_cfg(fi)
     n = 0
     for c in fi.local_nodes():
@@ -562,18 +670,51 @@ def _check_type_splits(rep: Report, rid: str, fi: FunctionInfo, typevar: str, sc
         sep = _cstr(c.args[0])
         ms = arg_or_kw(c, 1, "maxsplit")
         k = f"{fi.fq}|{typevar}.split|first ':' only"
-        if sep == ":" and isinstance(ms, ast.Constant) and ms.value == 1:
+        if sep == ":" and ms is not None and _const(ms) == 1:
             rep.ok(rid, k, site)
         else:
             rep.violation(rid, k, site, f"`{short(c, 40)}`: Sphinx keys are split at the first ':' only (`split(':', 1)`); an object type that itself contains ':' (rst:directive:option) no longer unpacks into (domain, objtype)")
         st = cfg.stmt_of(c)
-        ok = any(a[0] == "in" and _cstr(a[1]) == sep and _is_name(a[2], typevar) and a[3] for a in _atoms(cfg, st))
+        ok = any(a[0] == "in" and _cstr(a[1]) == sep and (_is_name(a[2], typevar) or alias(a[2])) and a[3] for a in _atoms(cfg, st))
         k = f"{fi.fq}|{typevar}.split|dominated by the ':' test"
         if ok:
             rep.ok(rid, k, site)
+        elif _caught_and_skipped(fi, st) and isinstance(parent(c), ast.Assign) and isinstance(parent(c).targets[0], ast.Tuple) and len(parent(c).targets[0].elts) == 2:
+            rep.ok(rid, k, site, "no ':' -> the two-name unpacking raises ValueError, which is caught and the entry skipped")
         else:
             rep.violation(rid, k, site, f"`{short(c, 40)}` is not dominated by the `{sep!r} in {typevar}` test: a key/type without ':' raises ValueError instead of being skipped (Sphinx skips it)")
     return n
+
+
+def _entry_store_via(corpus: Corpus, fi: FunctionInfo, st):
+    """``_entry_store(st)``, or - when ``st`` calls a private helper whose body contains exactly one entry
+    store - that store with the helper's parameters replaced by the call's arguments."""
+    es = _entry_store(st)
+    if es is not None:
+        return es
+    if not (isinstance(st, ast.Expr) and isinstance(st.value, ast.Call)):
+        return None
+    t = _callee(corpus, fi, st.value)
+    if t is None or t.is_lambda:
+        return None
+    inner = [n for n in t.local_nodes() if isinstance(n, ast.stmt) and _entry_store(n) is not None]
+    body = [n for n in t.node.body if not (isinstance(n, ast.Expr) and isinstance(n.value, ast.Constant))]
+    if len(inner) != 1:
+        return None
+    # the helper must be straight-line up to the store (container-creating setdefault statements allowed)
+    for n in body:
+        if n is inner[0]:
+            continue
+        if not (isinstance(n, ast.Expr) and isinstance(n.value, ast.Call) and isinstance(n.value.func, ast.Attribute) and n.value.func.attr == "setdefault"):
+            return None
+    mapping = {}
+    for p in t.params:
+        a = _param_arg(t, st.value, p)
+        if a is None:
+            return None
+        mapping[p] = a
+    keys, item, mode = _entry_store(inner[0])
+    return [_clone(k, mapping) for k in keys], _clone(item, mapping), mode
 
 
 def _text_problems(samples: list, got: list) -> list[str]:
@@ -622,9 +763,9 @@ def _store_guard_classes(fi: FunctionInfo, L: "EntryLoop", store) -> list[tuple[
             cls = "MATCH"
         elif isinstance(t, ast.Compare) and len(t.ops) == 1 and is_m(t.left) and _is_none(t.comparators[0]) and isinstance(t.ops[0], (ast.Is, ast.IsNot)) and (isinstance(t.ops[0], ast.IsNot) == pol):
             cls = "MATCH"
-        elif any(a[0] == "in" and _cstr(a[1]) == ":" and _is_name(a[2], R["type"]) and a[3] for a in _atom(t, pol)):
+        elif any(a[0] == "in" and _cstr(a[1]) == ":" and a[3] and (_is_name(a[2], R["type"]) or (isinstance(a[2], (ast.Call, ast.Subscript)) and _mentions(a[2], {L.mvar}) and str(ROLES.index("type") + 1) in unparse(a[2]))) for a in _atom(t, pol)):
             cls = "COLON"
-        elif any(isinstance(n, ast.Constant) and n.value == "py:module" for n in ast.walk(t)):
+        elif any(_cstr(n) == "py:module" for n in ast.walk(t) if isinstance(n, (ast.Constant, ast.Name))):
             cls = "PYDUP"
         elif isinstance(t, ast.Name) and t.id in R.values() and pol and L.group_min_width().get(t.id, 0) >= 1:
             cls = "VACUOUS"  # the regex group cannot be empty: the truthiness test never skips anything
@@ -643,16 +784,23 @@ def r2_rule_chain(corpus: Corpus, rep: Report, tier: str):
     fi, cfg, mod = L.fi, get_cfg(L.fi), L.fi.module
     R = L.roles
     scope = L.body_stmts
-    stores = [st for st in scope if _entry_store(st) is not None]
+    stores = [st for st in scope if _entry_store_via(corpus, fi, st) is not None]
     if len(stores) != 1:
         raise Unsupported(f"{fi.fq}: expected one store into [\"objects\"][domain][objtype][name], found {len(stores)}")
     store = stores[0]
-    _, item_e, mode = _entry_store(store)
+    _, item_e, mode = _entry_store_via(corpus, fi, store)
     item = _item_dict(fi, item_e)
     if item is None:
         raise Unsupported(f"{fi.fq}: the stored item is not a dict literal")
     # (a) the ':' test precedes the split (v2 loader and from_sphinx)
-    if _check_type_splits(rep, "C18.R2", fi, R["type"], scope) == 0:
+    type_group = ROLES.index("type") + 1
+
+    def type_alias(e) -> bool:  # m.group(2) / m[2] denote the same field before the unpacking
+        if isinstance(e, ast.Call) and isinstance(e.func, ast.Attribute) and e.func.attr == "group" and _is_name(e.func.value, L.mvar) and len(e.args) == 1:
+            return _const(e.args[0]) == type_group
+        return isinstance(e, ast.Subscript) and _is_name(e.value, L.mvar) and _const(e.slice) == type_group
+
+    if _check_type_splits(rep, "C18.R2", fi, R["type"], scope, type_alias) == 0:
         raise Unsupported(f"{fi.fq}: `{R['type']}` is never split into domain and objtype")
     fs = A.from_sphinx
     fs_type = _items_key_var(fs)
@@ -715,10 +863,14 @@ def r2_rule_chain(corpus: Corpus, rep: Report, tier: str):
         for st in loc_defs:
             p = parent(st)
             tested = good = None
-            if isinstance(st, ast.Assign) and isinstance(st.value, ast.IfExp) and _is_name(st.value.orelse, loc):
-                tested, good, anchor = is_dollar_test(st.value.test), is_expansion(st.value.body), st  # loc = loc[:-1] + name if loc.endswith("$") else loc
+            sv = _inline(corpus, fi, st.value) if isinstance(st, ast.Assign) else None
+            if isinstance(st, ast.Assign) and isinstance(sv, ast.IfExp) and _is_name(sv.orelse, loc):
+                tested, good, anchor = is_dollar_test(sv.test), is_expansion(sv.body), st  # loc = loc[:-1] + name if loc.endswith("$") else loc
+            elif isinstance(st, ast.Assign) and isinstance(sv, ast.IfExp) and _is_name(sv.body, loc):
+                neg = ast.UnaryOp(op=ast.Not(), operand=sv.test)
+                tested, good, anchor = is_dollar_test(neg), is_expansion(sv.orelse), st  # loc = loc if not loc.endswith("$") else loc[:-1] + name
             elif isinstance(st, ast.Assign) and isinstance(p, ast.If) and st in p.body:
-                tested, good, anchor = is_dollar_test(p.test), is_expansion(st.value), p
+                tested, good, anchor = is_dollar_test(p.test), is_expansion(sv), p
             else:
                 raise Unsupported(f"{fi.fq}: assignment to the location not understood: {short(st, 60)}")
             if not tested:
@@ -738,7 +890,7 @@ def r2_rule_chain(corpus: Corpus, rep: Report, tier: str):
     if tv is None:
         raise Unsupported(f"{fi.fq}: stored item has no literal \"text\" entry")
     samples = ["", sentinel, "x"]
-    probs = _text_problems(samples, _text_outcomes(fi, tv, store, scope, L.unpack, samples))
+    probs = _text_problems(samples, _text_outcomes(fi, tv, store, scope, L.unpack, samples, corpus))
     k = f"{fi.fq}|display name sentinel"
     if not probs:
         rep.ok("C18.R2", k, mod.site(store), f"'' and {sentinel!r} -> None, anything else kept ({len(samples)} abstract values)")
@@ -794,10 +946,34 @@ def _items_key_var(fi: FunctionInfo) -> str:
 def _sentinel(A: Anchors) -> str:
     """The display-name sentinel written by to_sphinx (``refdata["text"] or S``)."""
     fi = A.to_sphinx
+
+    def is_text(e) -> bool:  # item["text"], item.get("text"), or a local assigned from one of them
+        if isinstance(e, ast.Subscript):
+            return _cstr(e.slice) == "text"
+        if isinstance(e, ast.Call) and isinstance(e.func, ast.Attribute) and e.func.attr == "get" and e.args:
+            return _cstr(e.args[0]) == "text"
+        if isinstance(e, ast.Name):
+            defs = [d for d in fi.local_nodes() if isinstance(d, ast.Assign) and any(_is_name(t, e.id) for t in d.targets)]
+            return len(defs) == 1 and not isinstance(defs[0].value, ast.Name) and is_text(defs[0].value)
+        return False
+
     c = []
     for n in fi.local_nodes():
-        if isinstance(n, ast.BoolOp) and isinstance(n.op, ast.Or) and len(n.values) == 2 and _cstr(n.values[1]) is not None and _cstr(_sub_chain(n.values[0])[1][-1] if isinstance(n.values[0], ast.Subscript) else None) == "text":
+        if isinstance(n, ast.BoolOp) and isinstance(n.op, ast.Or) and len(n.values) == 2 and _cstr(n.values[1]) is not None and is_text(n.values[0]):
             c.append(_cstr(n.values[1]))
+        elif isinstance(n, ast.IfExp):
+            # text if text else S / S if not text else text / S if text is None else text
+            for keep, alt, pos in ((n.body, n.orelse, True), (n.orelse, n.body, False)):
+                if is_text(keep) and _cstr(alt) is not None:
+                    t = n.test
+                    neg = False
+                    while isinstance(t, ast.UnaryOp) and isinstance(t.op, ast.Not):
+                        t, neg = t.operand, not neg
+                    if isinstance(t, ast.Compare) and len(t.ops) == 1 and _is_none(t.comparators[0]) and isinstance(t.ops[0], (ast.Is, ast.IsNot)):
+                        neg ^= isinstance(t.ops[0], ast.Is)
+                        t = t.left
+                    if is_text(t) and (not neg) == pos:
+                        c.append(_cstr(alt))
     if len(c) != 1:
         raise Unsupported(f"{fi.fq}: `item[\"text\"] or <sentinel>` not found")
     return c[0]
@@ -886,7 +1062,10 @@ class Kinds:
         if e is None:
             return None
         if isinstance(e, ast.Name):
-            return self.env.get(e.id)
+            if e.id in self.env:
+                return self.env[e.id]
+            v = _const(e)
+            return (TYPE if ":" in v else CONST) if isinstance(v, str) else None
         if isinstance(e, ast.Constant):
             if isinstance(e.value, str):
                 return TYPE if ":" in e.value else CONST
@@ -915,7 +1094,7 @@ class Kinds:
                 return ("M", 0)
             if recv == TYPE and a == "split" and e.args and _cstr(e.args[0]) == ":":
                 ms = arg_or_kw(e, 1, "maxsplit")
-                if isinstance(ms, ast.Constant) and ms.value == 1:
+                if ms is not None and _const(ms) == 1:
                     return ("TUPLE", DOMAIN, OBJTYPE)
                 return None
             return None
@@ -1027,6 +1206,77 @@ def _param_arg(callee: FunctionInfo, call: ast.Call, name: str):
     return None
 
 
+def _clone(node, mapping: dict):
+    """Copy of an expression with parameter names replaced by the call's argument nodes (no parent links
+    are followed; ``_mod`` is kept so that hoisted constants still resolve)."""
+    if isinstance(node, ast.Name) and isinstance(node.ctx, ast.Load) and node.id in mapping:
+        return mapping[node.id]
+    if not isinstance(node, ast.AST):
+        return node
+    new = type(node)()
+    for f in node._fields:
+        v = getattr(node, f, None)
+        if isinstance(v, list):
+            setattr(new, f, [_clone(x, mapping) for x in v])
+        else:
+            setattr(new, f, _clone(v, mapping))
+    for a in ("lineno", "col_offset", "end_lineno", "end_col_offset", "_mod"):
+        if hasattr(node, a):
+            setattr(new, a, getattr(node, a))
+    return new
+
+
+def _body_to_expr(stmts: list):
+    """``if T: return A`` ... ``return B`` (no other statements) as one conditional expression."""
+    stmts = [st for st in stmts if not (isinstance(st, ast.Expr) and isinstance(st.value, ast.Constant))]
+    if not stmts:
+        return None
+    st = stmts[0]
+    if isinstance(st, ast.Return) and st.value is not None:
+        return st.value
+    if isinstance(st, ast.If):
+        a = _body_to_expr(st.body)
+        b = _body_to_expr(list(st.orelse) + list(stmts[1:]))
+        if a is None or b is None:
+            return None
+        x = ast.IfExp(test=st.test, body=a, orelse=b)
+        x._mod = getattr(st, "_mod", None)
+        x.lineno, x.col_offset = st.lineno, st.col_offset
+        return x
+    return None
+
+
+def _inline(corpus: Corpus, fi: FunctionInfo, e, depth: int = 0):
+    """``e`` itself, or - when it is a call of a private helper whose body is a chain of guarded returns -
+    the returned expression with the arguments substituted (two levels)."""
+    if not isinstance(e, ast.Call) or depth > 2:
+        return e
+    t = _callee(corpus, fi, e)
+    if t is None:
+        return e
+    x = t.node.body if t.is_lambda else _body_to_expr(list(t.node.body))
+    if x is None:
+        return e
+    mapping = {}
+    args = t.node.args
+    defaults = dict(zip([a.arg for a in (args.posonlyargs + args.args)][len(args.posonlyargs + args.args) - len(args.defaults):], args.defaults))
+    for p in t.params:
+        if p in ("self", "cls") and isinstance(e.func, ast.Attribute):
+            continue
+        a = _param_arg(t, e, p)
+        if a is None:
+            a = defaults.get(p)
+        if a is None:
+            return e
+        mapping[p] = a
+    out = _clone(x, mapping)
+    # helpers calling helpers
+    for n in list(ast.walk(out)):
+        if isinstance(n, ast.Call) and n is not out and _callee(corpus, t, n) is not None:
+            return out  # nested helper calls are left alone
+    return _inline(corpus, t, out, depth + 1) if isinstance(out, ast.Call) else out
+
+
 def _returns_record(corpus: Corpus, f: FunctionInfo, depth: int = 0) -> bool:
     """Does ``f`` return an InventoryType record (annotation, dict literal with "objects", or a helper's)?"""
     if f.is_lambda or depth > 2:
@@ -1106,11 +1356,30 @@ def r3_key_kinds(corpus: Corpus, rep: Report, tier: str):
         (A.from_sphinx, {}),
         (A.to_sphinx, {}),
     ]
-    for fi, extra in plan:
+    planned = {f.fq for f, _ in plan}
+    work = list(plan)
+    done = set()
+    while work:
+        fi, extra = work.pop(0)
+        if fi.fq in done:
+            continue
+        done.add(fi.fq)
         rep.saw_function(fi.fq)
         kinds = Kinds(fi, _kind_seeds(corpus, fi, extra))
-        if not kinds.checks:
+        if not kinds.checks and fi.fq in planned:
             raise Unsupported(f"{fi.fq}: no access to an inventory dictionary was typed")
+        # private helpers that receive the table or keys: parameter kinds come from the call site
+        for call, t in _callees(corpus, fi):
+            if t.fq in done or t.fq in planned or t.module is not fi.module or t.cls is not None:
+                continue
+            pk = {}
+            for p_ in t.params:
+                a = _param_arg(t, call, p_)
+                k_ = kinds.kind(a) if a is not None else None
+                if k_ is not None and k_ != POISON and k_ != CONFLICT:
+                    pk[p_] = k_
+            if any(k_ == REC or _is_container(k_) for k_ in pk.values()):
+                work.append((t, pk))
         seen = set()
         for node, key, exp, got in kinds.checks:
             k = f"{fi.fq}|{short(node, 80)}|{exp} key"
@@ -1158,7 +1427,8 @@ def _is_b(n, b: str) -> bool:
 
 
 def _empty_bytes(e) -> bool:
-    return isinstance(e, ast.Constant) and isinstance(e.value, (bytes, str)) and len(e.value) == 0
+    v = _const(e) if e is not None else _NOCONST
+    return isinstance(v, (bytes, str)) and len(v) == 0
 
 
 class StmtBuf:
@@ -1205,8 +1475,8 @@ class StmtBuf:
                 if isinstance(p, ast.Attribute) and p.value is n:
                     call = parent(p)
                     if isinstance(call, ast.Call) and call.func is p and p.attr in PROBE_METHODS:
-                        if p.attr == "find" and len(call.args) == 1 and isinstance(call.args[0], ast.Constant):
-                            self.finds.append(call.args[0].value)
+                        if p.attr == "find" and len(call.args) == 1 and _const(call.args[0]) is not _NOCONST:
+                            self.finds.append(_const(call.args[0]))
                         continue
                     if isinstance(call, ast.Call) and call.func is p and p.attr == "decode":
                         self.whole.append(n)
@@ -1395,16 +1665,16 @@ def _judge_buffer(rep: Report, M: ReaderModel, m: FunctionInfo, b: str) -> None:
             for d in inf:
                 if isinstance(d, ast.Assign) and any(_is_name(t, pos) for t in d.targets):
                     v = d.value
-                    if not (isinstance(v, ast.Call) and isinstance(v.func, ast.Attribute) and v.func.attr == "find" and _is_b(v.func.value, b) and len(v.args) == 1 and isinstance(v.args[0], ast.Constant) and isinstance(v.args[0].value, bytes)):
+                    if not (isinstance(v, ast.Call) and isinstance(v.func, ast.Attribute) and v.func.attr == "find" and _is_b(v.func.value, b) and len(v.args) == 1 and _cbytes(v.args[0]) is not None):
                         raise Unsupported(f"{m.fq}: `{pos}` is not only assigned from {b}.find(<bytes>)")
-                    seps.add(v.args[0].value)
+                    seps.add(_cbytes(v.args[0]))
                     defs.append(d)
                 elif isinstance(d, (ast.AugAssign, ast.AnnAssign)) and _is_name(d.target, pos):
                     raise Unsupported(f"{m.fq}: `{pos}` is modified in an unknown way")
             if len(seps) != 1:
                 raise Unsupported(f"{m.fq}: `{pos}` has no single separator")
             sep = seps.pop()
-            good_lower = isinstance(lower, ast.BinOp) and isinstance(lower.op, ast.Add) and _is_name(lower.left, pos) and isinstance(lower.right, ast.Constant) and lower.right.value == len(sep)
+            good_lower = isinstance(lower, ast.BinOp) and isinstance(lower.op, ast.Add) and _is_name(lower.left, pos) and _const(lower.right) == len(sep)
             stale = []
             for d in defs:  # reaching-definition segments d -> p (other definitions of pos kill d)
                 stop = set(defs) | {p}
@@ -1505,8 +1775,8 @@ def _bytes_provenance(e, fi: FunctionInfo, M: "ReaderModel", gens: set[str], at:
             for d in fi.local_nodes():
                 if isinstance(d, ast.Assign) and any(_is_name(t, pos) for t in d.targets):
                     v = d.value
-                    if isinstance(v, ast.Call) and isinstance(v.func, ast.Attribute) and v.func.attr == "find" and unparse(v.func.value) == b and len(v.args) == 1 and isinstance(v.args[0], ast.Constant) and isinstance(v.args[0].value, bytes):
-                        seps.append(v.args[0].value)
+                    if isinstance(v, ast.Call) and isinstance(v.func, ast.Attribute) and v.func.attr == "find" and unparse(v.func.value) == b and len(v.args) == 1 and _cbytes(v.args[0]) is not None:
+                        seps.append(_cbytes(v.args[0]))
                     else:
                         raise Unsupported(f"{fi.fq}: `{pos}` is not only assigned from {b}.find(<bytes>)")
             if seps and all(s and max(s) < 0x80 for s in seps):
@@ -1551,7 +1821,7 @@ def _bytes_provenance(e, fi: FunctionInfo, M: "ReaderModel", gens: set[str], at:
         return bad[0] if bad else res[0]
     if isinstance(e, ast.Call):
         f = e.func
-        if isinstance(f, ast.Attribute) and f.attr == "join" and isinstance(f.value, ast.Constant) and isinstance(f.value.value, bytes) and len(e.args) == 1:
+        if isinstance(f, ast.Attribute) and f.attr == "join" and _cbytes(f.value) is not None and len(e.args) == 1:
             it = e.args[0]
             if isinstance(it, (ast.GeneratorExp, ast.ListComp)) and len(it.generators) == 1 and not it.generators[0].ifs and _is_name(it.elt, getattr(it.generators[0].target, "id", "")):
                 it = it.generators[0].iter
@@ -1695,6 +1965,8 @@ def _sym_eval(e, env: dict, mod) -> tuple:
     if isinstance(e, ast.Name):
         if e.id in env:
             return env[e.id]
+        if isinstance(_const(e), str):
+            return (("c", _const(e)),)
         raise Unsupported(f"symbolic value of `{e.id}` unknown")
     if isinstance(e, ast.BinOp) and isinstance(e.op, ast.Add):
         return _sym_eval(e.left, env, mod) + _sym_eval(e.right, env, mod)
@@ -1731,7 +2003,7 @@ def _sym_show(parts) -> str:
 
 def _sym_store(st, env, mod, sentinel, A):
     """(type, name, loc, text, duplicate mode) when ``st`` stores one v1 entry (MyST or Sphinx shape), else None."""
-    es = _entry_store(st)
+    es = _entry_store_via(A.corpus, A.cur_fi, st) if getattr(A, "cur_fi", None) is not None else _entry_store(st)
     if es is not None and isinstance(es[1], ast.Dict) and _dict_value(es[1], "loc") is not None:  # MyST
         keys, item, mode = es
         typ = _sym_eval(keys[0], env, mod) + (("c", ":"),) + _sym_eval(keys[1], env, mod)
@@ -1775,15 +2047,20 @@ def _sym_exec(stmts, env, conds, out, mod, sentinel, skip, A) -> None:
         elif isinstance(st, ast.AugAssign) and isinstance(st.target, ast.Name) and isinstance(st.op, ast.Add):
             env[st.target.id] = _sym_eval(st.target, env, mod) + _sym_eval(st.value, env, mod)
         elif isinstance(st, ast.If):
-            ec = _eq_const(st.test)
+            test, flip = st.test, False
+            while isinstance(test, ast.UnaryOp) and isinstance(test.op, ast.Not):
+                test, flip = test.operand, not flip
+            if isinstance(test, ast.Compare) and len(test.ops) == 1 and isinstance(test.ops[0], ast.NotEq):
+                test, flip = ast.Compare(left=test.left, ops=[ast.Eq()], comparators=test.comparators), not flip
+            ec = _eq_const(test)
             if ec is None or not isinstance(ec[0], ast.Name):
                 raise Unsupported(f"v1 loop: test not understood: {short(st.test, 50)}")
             val = _sym_norm(_sym_eval(ec[0], env, mod))
             if len(val) != 1 or val[0][0] != "v":
                 raise Unsupported(f"v1 loop: test on a derived value: {short(st.test, 50)}")
             rest = list(stmts[i + 1 :])
-            _sym_exec(list(st.body) + rest, dict(env), conds + [(val[0][1], ec[1], True)], out, mod, sentinel, skip, A)
-            _sym_exec(list(st.orelse) + rest, dict(env), conds + [(val[0][1], ec[1], False)], out, mod, sentinel, skip, A)
+            _sym_exec(list(st.body) + rest, dict(env), conds + [(val[0][1], ec[1], not flip)], out, mod, sentinel, skip, A)
+            _sym_exec(list(st.orelse) + rest, dict(env), conds + [(val[0][1], ec[1], flip)], out, mod, sentinel, skip, A)
             return
         elif isinstance(st, ast.Expr) and isinstance(st.value, ast.Call) and isinstance(st.value.func, ast.Attribute) and st.value.func.attr == "setdefault":
             continue  # creates the nested dictionaries; key kinds are judged by R3
@@ -1804,7 +2081,11 @@ def _v1_table(fi: FunctionInfo, sentinel: str, A):
     roles = ["NAME", "ITEMTYPE", "LOCATION"]
     env = {e.id: (("v", r),) for e, r in zip(un.targets[0].elts, roles)}
     out: dict = {}
-    _sym_exec(list(loop.body), env, [], out, fi.module, sentinel, un, A)
+    A.cur_fi = fi
+    try:
+        _sym_exec(list(loop.body), env, [], out, fi.module, sentinel, un, A)
+    finally:
+        A.cur_fi = None
     return chain, out, loop
 
 
@@ -1839,8 +2120,8 @@ def _slice_offset(corpus: Corpus, fi: FunctionInfo, e, ctx: tuple = (), depth: i
             raise Unsupported(f"{fi.fq}: `{short(d, 50)}` not understood")
         return _slice_offset(corpus, fi, d.value, ctx, depth + 1)
     sl = [n for n in ast.walk(e) if isinstance(n, ast.Subscript) and isinstance(n.slice, ast.Slice)]
-    if len(sl) == 1 and sl[0].slice.upper is None and sl[0].slice.step is None and isinstance(sl[0].slice.lower, ast.Constant):
-        return sl[0].slice.lower.value
+    if len(sl) == 1 and sl[0].slice.upper is None and sl[0].slice.step is None and isinstance(_const(sl[0].slice.lower), int):
+        return _const(sl[0].slice.lower)
     if not sl and isinstance(e, ast.Call):  # value produced by a helper: follow its single return
         t = _callee(corpus, fi, e)
         rets = [r for r in t.local_nodes() if isinstance(r, ast.Return)] if t is not None else []
@@ -1875,19 +2156,32 @@ def _offsets(corpus: Corpus, fi: FunctionInfo) -> tuple:
     return tuple(_slice_offset(corpus, owner, e, ctx) for e in (ne, ve))
 
 
-def _v2_consts(fi: FunctionInfo, roles: dict) -> dict[str, set]:
-    out = {"substring tests": set(), "type equality": set(), "location suffix": set()}
+def _v2_consts(corpus: Corpus, fi: FunctionInfo, roles: dict, depth: int = 0, out: dict | None = None) -> dict[str, set]:
+    if out is None:
+        out = {"substring tests": set(), "type equality": set(), "location suffix": set()}
+    if depth < 2:  # tests moved into private helpers: follow them with the role variables mapped to parameters
+        for call, t in _callees(corpus, fi):
+            sub = {}
+            for role, var in roles.items():
+                ps = [p for p in t.params if _is_name(_param_arg(t, call, p), var)]
+                sub[role] = ps[0] if ps else "\0"
+            _v2_consts(corpus, t, sub, depth + 1, out)
     for n in fi.local_nodes():
         if isinstance(n, ast.Compare) and len(n.ops) == 1:
             l, r = n.left, n.comparators[0]
             if isinstance(n.ops[0], (ast.In, ast.NotIn)) and _cstr(l) is not None:
                 out["substring tests"].add(_cstr(l))
+            for a in _atom(n, True):
+                if a[0] == "endswith" and _is_name(a[1], roles["loc"]) and _cstr(a[2]) is not None:
+                    out["location suffix"].add(_cstr(a[2]))
             if isinstance(n.ops[0], (ast.Eq, ast.NotEq)):
                 ec = _eq_const(ast.Compare(left=l, ops=[ast.Eq()], comparators=[r]))
                 if ec is not None and _is_name(ec[0], roles["type"]):
                     out["type equality"].add(ec[1])
-        if isinstance(n, ast.Call) and isinstance(n.func, ast.Attribute) and n.func.attr == "endswith" and _is_name(n.func.value, roles["loc"]) and n.args and _cstr(n.args[0]) is not None:
+        if isinstance(n, ast.Call) and isinstance(n.func, ast.Attribute) and n.func.attr in ("endswith", "removesuffix") and _is_name(n.func.value, roles["loc"]) and n.args and _cstr(n.args[0]) is not None:
             out["location suffix"].add(_cstr(n.args[0]))
+        if isinstance(n, ast.Call) and isinstance(n.func, ast.Attribute) and n.func.attr == "split" and _is_name(n.func.value, roles["type"]) and n.args and _cstr(n.args[0]) is not None:
+            out["substring tests"].add(_cstr(n.args[0]))  # the separator plays the role of the substring test
     return out
 
 
@@ -1957,13 +2251,13 @@ def r5_constants(corpus: Corpus, rep: Report, tier: str):
         else:
             rep.violation(rid, k, A.v1.module.site(mloop), f"v1 entry with {cs}: stored as [{show(m_)}], Sphinx {ver} stores [{show(s_)}]")
     # (4) constants tested by the v2 loader
-    mc, sc = _v2_consts(L.fi, L.roles), _v2_consts(S.fi, S.roles)
+    mc, sc = _v2_consts(corpus, L.fi, L.roles), _v2_consts(corpus, S.fi, S.roles)
     for what in mc:
         k = f"{L.fi.fq}|{what}"
         if mc[what] == sc[what] and mc[what]:
             rep.ok(rid, k, L.fi.site(), _show_set(mc[what]))
-        elif not mc[what] and not sc[what]:
-            raise Unsupported(f"no {what} found on either side")
+        elif not mc[what]:
+            raise Unsupported(f"{L.fi.fq}: no {what} recognised (whether the rule itself is present is judged by R2)")
         else:
             rep.violation(rid, k, L.fi.site(), f"{what} use {_show_set(mc[what])}, Sphinx {ver} uses {_show_set(sc[what])}")
     # (5) the display-name sentinel: to_sphinx writes it, from_sphinx and Sphinx's v1 loader agree
@@ -1974,7 +2268,7 @@ def r5_constants(corpus: Corpus, rep: Report, tier: str):
         raise Unsupported(f"{fs.fq}: item store not understood")
     samples = ["", sentinel, "x"]
     fscope = {n for n in fs.local_nodes() if isinstance(n, ast.stmt)}
-    probs = _text_problems(samples, _text_outcomes(fs, _dict_value(fitem, "text"), fstores[0], fscope, None, samples))
+    probs = _text_problems(samples, _text_outcomes(fs, _dict_value(fitem, "text"), fstores[0], fscope, None, samples, corpus))
     k = f"{fs.fq}|display name sentinel"
     if not probs:
         rep.ok(rid, k, fs.module.site(fstores[0]), f"'' and {sentinel!r} -> None, everything else kept (to_sphinx writes {sentinel!r} for None; {len(samples)} abstract values)")
@@ -2036,10 +2330,10 @@ def _objects_store_any(st) -> bool:
     es = _entry_store(st, rooted=False)
     if es is None:
         return False
-    item = es[1]
+    keys, item = es[0], es[1]
     if isinstance(item, ast.Dict):
-        return _dict_value(item, "loc") is not None
-    return isinstance(item, ast.Name)
+        return _dict_value(item, "loc") is not None and _dict_value(item, "text") is not None
+    return isinstance(item, ast.Name) and len(keys) >= 3
 
 
 RULES = [r1_regex_equals_sphinx, r2_rule_chain, r3_key_kinds, r4_buffer_conservation, r5_constants]
@@ -2211,7 +2505,7 @@ def mutants(corpus: Corpus):
         tvar = [b.id for b in (ife.body, ife.orelse) if isinstance(b, ast.Name)][0]
         add("c18-from-sphinx-sentinel-not-mapped", "C18.R5", ife.test, f"not {tvar}", "display name sentinel")
         fst2 = find_node(fs, lambda n: isinstance(n, ast.stmt) and _objects_store_any(n))
-        nm = unparse(_entry_store(fst2, rooted=False)[0][2]) if fst2 is not None else None
+        nm = unparse(_entry_store(fst2, rooted=False)[0][-1]) if fst2 is not None else None
         if nm is not None:
             add("c18-from-sphinx-text-equal-to-name-dropped", "C18.R5", ife.test, f"not {tvar} or {tvar} in (\"-\", {nm})", "equal to")
             add("c18-from-sphinx-text-equal-to-name-dropped-eq", "C18.R5", ife.test, f"not {tvar} or {tvar} == \"-\" or {tvar} == {nm}", "equal to")
